@@ -295,7 +295,7 @@ def compute(prog, rep):
     rep.check(okh, "C02.warn", f"{q}:handler", fn.where(), "every path through the handler re-warns with RuntimeWarning", why)
     # NaN guard (same row as C18)
     nan = [st for st in cfg.all_stmts() if isinstance(st, ast.Raise) and exception_name(st, b) == "ValueError"
-           and any(l[0] == "call" and l[1][0] == "attr" and l[1][2] == "any" and l[1][1][0] == "call" and l[1][1][1] == G("numpy.isnan") for l in pcs.of(st))]
+           and any(l[0] == "call" and l[1] == G("numpy.any") and l[2] and l[2][0][0] == "call" and l[2][0][1] == G("numpy.isnan") for l in pcs.of(st))]
     ok = bool(nan) and cfg.dominates(cfg.node(cfg.enclosing(nan[0])[-1][0]), cfg.node(sel[0]))
     rep.check(ok, "C02.nan", f"{q}:nan", fn.where(nan[0]) if nan else fn.where(), "NaN density raises ValueError before the selection",
               "a NaN cell density must raise ValueError before the cumulative selection")
